@@ -103,6 +103,7 @@ AllLoop(i, n, nChunk) ==
              i1   == [i EXCEPT !.allPos = @ + 1]
          IN IF allN = n THEN i1
             ELSE AllLoop(IF cfg.fn /\ (IF "StrictReach" \in Dev THEN allN > nChunk * cfg.cs ELSE allN >= nChunk * cfg.cs)
+                               /\ ("ReachOnlyLoaded" \in Dev => i1.currChunk = nChunk)      \* seeded C17-k: "a chunk that is just being entered is loaded below anyway"
                          THEN CurrChunkNext(i1, nChunk) ELSE i1,
                          n, nChunk)
 
@@ -136,7 +137,11 @@ CleanPath(i, a) ==
              r  == CleanLoop(i.actPos + 1, n0, ChunkOf(n0), 0, a)
              i1 == [i EXCEPT !.actPos = r[1], !.allPos = r[1]]
          IN IF r[2] < a THEN [i |-> i1, doc |-> None]
-            ELSE LET i2 == Repeat(i1, r[3], r[4])
+            ELSE LET \* seeded C05-k: a "far seek" that positions the bitmap at the target's chunk start - but tests
+                     \* "another chunk" against the LOADED chunk, not the chunk of the posting already consumed (n0):
+                     \* when n0 opens a chunk that is not loaded yet, nothing is skipped for n0..r[2]
+                     far == "FarSeekLoadedChunk" \in Dev /\ r[3] > i.currChunk /\ ChunkOf(n0) = r[3] /\ r[2] # n0
+                     i2 == IF far THEN i1 ELSE Repeat(i1, r[3], r[4])
                      i3 == IF NeedLoad(i2, r[3]) THEN LoadChunk(i2, r[3]) ELSE i2
                  IN [i |-> i3, doc |-> r[2]]
 
